@@ -21,7 +21,7 @@ type RawImpl struct {
 	Names func(pkg string, tracker string, types []*TypeSpec) (names []string, importLines []string)
 }
 
-var rawPaths = []string{"k8s.io/api/core/v1", "k8s.io/apimachinery/pkg/apis/meta/v1", "a/b-c/d.e", "example.com/out/v1", "x", "my.org/api/v1", "a/b", "other/b", "go/types", "x/type"}
+var rawPaths = []string{"k8s.io/api/core/v1", "k8s.io/apimachinery/pkg/apis/meta/v1", "a/b-c/d.e", "example.com/out/v1", "x", "my.org/api/v1", "a/b", "other/b", "go/types", "x/type", "net/port", "im/port", "inter/face", "other/face"}
 var rawNames = []string{"Pod", "Foo", "T1", "Baz", "Time", "X"}
 
 func pkgIdent(path string) string {
